@@ -574,9 +574,12 @@ def gen_c18(ctx):
     for _ in range(20 if ctx.tier == "quick" else 400):
         masks.append(rng.next() & ((1 << 64) - 2))
     cases = []
-    for m in masks:
+    # the signal state must be clean whatever the child's streams are (all inherited included)
+    streams = [("N", "N", "N"), ("N", "P", "N"), ("P", "N", "N"), ("N", "N", "P"), ("F0", "N", "N"), ("N", "F0", "M"), ("P", "P", "P")]
+    for k, m in enumerate(masks):
         for sp in ("ign", "dfl"):
-            cases.append(f"in=N out=P err=N det=0 mask={m:x} sigpipe={sp} argv={TRUE}")
+            for (i, o, e) in (streams if k < 9 else [streams[rng.below(len(streams))]]):
+                cases.append(f"in={i} out={o} err={e} det=0 mask={m:x} sigpipe={sp} argv={TRUE}")
     return cases
 
 
